@@ -30,32 +30,141 @@ pub fn c09_single_flat() {
     }
 }
 
-/// ∀ two valid cells a, b, ∀ t ≤ min(res) or equal: Ok([a, b]) in input order iff t = res a = res b;
-/// Err (nothing returned) iff either input is finer than t.
+/// Contract model of `cell_to_children` for the same-resolution call on a canonical ID — the only
+/// call uncompact makes in the fan-out-1 class. The contract ("returns exactly [x]") is proved on
+/// the real function by `c09_children_same`; replacing the callee by its contract here is what makes
+/// *lists* tractable (two real callee instances already exceed 30 GB).
+pub fn children_same_model(index: u64, child_resolution: Option<i32>) -> Result<Vec<u64>, String> {
+    let r = res_stub(index);
+    match child_resolution {
+        Some(t) if t == r && spec_valid(index) => Ok(vec![index]),
+        _ => {
+            // outside the modelled class: the harness must not reach it
+            assert!(false, "children_same_model used outside its contract");
+            Err(String::new())
+        }
+    }
+}
+
+/// Contract model for the same-resolution call and for one level down from a cell of resolution ≥ 1
+/// (four children by the bit-level child rule; contract proved on the real function by
+/// `c07_children_d1`, which asserts `children(c, r+1)[i] = spec_child(c, i)`).
+pub fn children_d1_model(index: u64, child_resolution: Option<i32>) -> Result<Vec<u64>, String> {
+    let r = res_stub(index);
+    match child_resolution {
+        Some(t) if t == r && spec_valid(index) => Ok(vec![index]),
+        Some(t) if t == r + 1 && r >= 1 && spec_valid(index) => Ok(vec![
+            spec_child(index, 0),
+            spec_child(index, 1),
+            spec_child(index, 2),
+            spec_child(index, 3),
+        ]),
+        _ => {
+            assert!(false, "children_d1_model used outside its contract");
+            Err(String::new())
+        }
+    }
+}
+
+/// Lists of three with mixed fan-outs: each input is at the target resolution t (fan-out 1), one
+/// level coarser (fan-out 4, resolution ≥ 1) or finer (error): Ok iff none is finer; the output is
+/// the concatenation of the per-input expansions in input order, its length the sum of the fan-outs.
 #[kani::proof]
 #[kani::unwind(32)]
 #[kani::stub(alloc::fmt::format, fmt_stub)]
 #[kani::stub(a5::core::serialization::get_resolution, res_stub)]
-pub fn c09_pair_flat() {
+#[kani::stub(a5::core::serialization::cell_to_children, children_d1_model)]
+pub fn c09_list3_mixed() {
     warm();
-    let a = any_valid_cell_res(-1, 29);
-    let b = any_valid_cell_res(-1, 29);
-    let ia = ser(&a);
-    let ib = ser(&b);
     let t: i32 = kani::any();
-    kani::assume(t >= -1 && t <= a.resolution && t <= b.resolution);
-    match a5::uncompact(&[ia, ib], t) {
+    kani::assume(t >= 2 && t <= 29);
+    let mut ids = [0u64; 3];
+    let mut fan = [0usize; 3];
+    let mut finer = false;
+    let mut k = 0;
+    while k < 3 {
+        let c = any_valid_cell_res(1, 29);
+        kani::assume(c.resolution >= t - 1);
+        ids[k] = ser(&c);
+        if c.resolution > t {
+            finer = true;
+        }
+        fan[k] = if c.resolution == t { 1 } else { 4 };
+        k += 1;
+    }
+    match a5::uncompact(&ids, t) {
         Ok(v) => {
-            assert!(t == a.resolution && t == b.resolution);
-            assert!(v.len() == 2 && v[0] == ia && v[1] == ib);
-            kani::cover!(ia > ib);
-            kani::cover!(ia == ib);
+            assert!(!finer);
+            assert!(v.len() == fan[0] + fan[1] + fan[2]);
+            // element j of input k sits at offset fan[0..k] + j
+            let which: usize = kani::any();
+            let j: usize = kani::any();
+            kani::assume(which < 3 && j < fan[which]);
+            let off = if which == 0 { 0 } else if which == 1 { fan[0] } else { fan[0] + fan[1] };
+            let want = if fan[which] == 1 { ids[which] } else { spec_child(ids[which], j as u64) };
+            assert!(v[off + j] == want);
+            kani::cover!(fan[0] == 4 && fan[1] == 1 && fan[2] == 4);
+            kani::cover!(v.len() == 12);
             core::mem::forget(v);
         }
         Err(_) => {
-            assert!(t < a.resolution || t < b.resolution);
-            kani::cover!(t == a.resolution && t < b.resolution);
-            kani::cover!(t < a.resolution && t == b.resolution);
+            assert!(finer);
+            kani::cover!(true);
+        }
+    }
+}
+
+/// ∀ valid cell(−1..29): cell_to_children(c, Some(res c)) = [c] (the contract used by the list harness).
+#[kani::proof]
+#[kani::unwind(32)]
+#[kani::stub(alloc::fmt::format, fmt_stub)]
+#[kani::stub(a5::core::serialization::get_resolution, res_stub)]
+pub fn c09_children_same() {
+    warm();
+    let c = any_valid_cell_res(-1, 29);
+    let id = ser(&c);
+    match cell_to_children(id, Some(c.resolution)) {
+        Ok(v) => {
+            assert!(v.len() == 1 && v[0] == id);
+            core::mem::forget(v);
+        }
+        Err(_) => assert!(false),
+    }
+    kani::cover!(c.resolution == -1);
+    kani::cover!(c.resolution == 29);
+}
+
+/// Lists of three: ∀ valid cells a, b, c, ∀ t ∈ −1..29 with t ≤ every resolution: Ok([a, b, c]) in
+/// input order iff all three are exactly at t; Err (nothing returned) iff any of them — first,
+/// middle or last — is finer. uncompact itself is the real code; its callee is the contract model.
+#[kani::proof]
+#[kani::unwind(32)]
+#[kani::stub(alloc::fmt::format, fmt_stub)]
+#[kani::stub(a5::core::serialization::get_resolution, res_stub)]
+#[kani::stub(a5::core::serialization::cell_to_children, children_same_model)]
+pub fn c09_list3_flat() {
+    warm();
+    let a = any_valid_cell_res(-1, 29);
+    let b = any_valid_cell_res(-1, 29);
+    let c = any_valid_cell_res(-1, 29);
+    let ia = ser(&a);
+    let ib = ser(&b);
+    let ic = ser(&c);
+    let t: i32 = kani::any();
+    kani::assume(t >= -1 && t <= a.resolution && t <= b.resolution && t <= c.resolution);
+    match a5::uncompact(&[ia, ib, ic], t) {
+        Ok(v) => {
+            assert!(t == a.resolution && t == b.resolution && t == c.resolution);
+            assert!(v.len() == 3 && v[0] == ia && v[1] == ib && v[2] == ic);
+            kani::cover!(ia > ib && ib > ic);
+            kani::cover!(ia == ic);
+            core::mem::forget(v);
+        }
+        Err(_) => {
+            assert!(t < a.resolution || t < b.resolution || t < c.resolution);
+            kani::cover!(t < a.resolution && t == b.resolution && t == c.resolution);
+            kani::cover!(t == a.resolution && t < b.resolution && t == c.resolution);
+            kani::cover!(t == a.resolution && t == b.resolution && t < c.resolution);
         }
     }
 }
